@@ -24,7 +24,7 @@ ASSUMPTIONS = ['refmodels evaluators (Cox-de Boor by definition, float mode) are
 KINDS = ['routes', 'routes', 'routes', 'ops', 'ops', 'constructors', 'user']
 
 def cases(tier, seed):
-    n = {'quick': 1400, 'thorough': 24000}[tier]
+    n = {'quick': 1400, 'thorough': 150000}[tier]
     for i in range(n):
         yield {'kind': KINDS[i % len(KINDS)], 'seed': seed, 'idx': i}
 
